@@ -319,6 +319,11 @@ def fn_verdict(c, io, mf):
         return ("fail", "abort:fn:%s:%s" % (method, io[6:]), "find_neighbors(%s, check_connectivity=true) aborts / does not return "
                 "(%s)" % (method, io[6:]))
     f = fields_of(io)
+    if "foreign" in f:
+        return ("fail", "%s:foreign-id" % method,
+                "find_neighbors(%s, check_connectivity=%s) on a range whose elements differ from their positions (rng=) called "
+                "the callback with an argument that is not an element of the range (%s calls): a position is passed where "
+                "*iter is meant" % (method, c.get("check", "1"), f["foreign"]))
     if "mtried" not in mf:
         return ("broken", "driver:fn", "driver rejected the case: %s" % mf)
     if c.get("check", "1") == "1" and (f.get("fin") == "0" or (mf.get("sc") == "0" and mf.get("uni") == "1")):
@@ -425,6 +430,8 @@ def shrink_fn(ctx, binary, c, sig):
 def judge_fn(ctx, binary, groups, label):
     """groups: list of lists of cases; cases of one group are the same tie-free data in different sample orders
     (group[0] = base order); each case carries '_perm' (new index -> base index)"""
+    # about half of the cases: element != position (rng=), independently per sample order
+    groups = [[dict(G.with_range(c)) for c in grp] for grp in groups]
     flat = [c for grp in groups for c in grp]
     res = run_fn(ctx, binary, [{k: v for k, v in c.items() if not k.startswith("_")} for c in flat])
     if res is None:
@@ -439,6 +446,7 @@ def judge_fn(ctx, binary, groups, label):
             ctx.count(line, n >= 4)
             ctx.stat("fn:" + label)
             ctx.stat("fn:method:" + c["method"])
+            ctx.stat("fn:range:" + G.range_kind(c))
             ctx.cov["traces_validated_against_impl"] += 1
             v = fn_verdict(c, io, mf)
             f = fields_of(io) if not io.startswith("abort:") else {}
@@ -734,7 +742,7 @@ def correspond(ctx):
                                "samples throws (%s)" % (c["meth"], c["cc"], o[:120]), line, {"impl": o})
                     evals_oracle(ctx, c, line, o, f)
         else:
-            cs = [G.parse_line(p)[1] for p in parts]
+            cs = [dict(G.parse_line(p)[1], _norng=True) for p in parts]      # exactly the recorded ranges
             for c in cs:
                 c["_tiefree"] = len(cs) > 1
             judge_fn(ctx, binary, [cs], "replay")
